@@ -1,0 +1,48 @@
+/*-
+  verif.h -- verification hooks (compiled only with -DKJN_LBZIP2_VERIF)
+
+  Nothing in this file is used unless KJN_LBZIP2_VERIF is defined.  With the
+  guard on, behaviour changes only when one of the LBZIP2_VERIF_* environment
+  variables is set:
+
+  LBZIP2_VERIF_PERTURB=<seed>   seeded sched_yield()/short sleeps at scheduler
+                                lock/unlock and around read()/write()
+  LBZIP2_VERIF_DELAY=<script>   comma separated "site:a:b=ms" entries; a thread
+                                reaching hook site `site' with keys a,b sleeps
+                                ms milliseconds (outside the scheduler lock),
+                                each entry fires once
+  LBZIP2_VERIF_IN_GRANUL, LBZIP2_VERIF_OUT_GRANUL, LBZIP2_VERIF_IN_SLOTS,
+  LBZIP2_VERIF_OUT_SLOTS        override decompression memory constraints
+  LBZIP2_VERIF_TRACE=<path>     scheduler event trace, one line per atomic
+                                section, written while sched_mutex is held
+  LBZIP2_VERIF_CHECK=1          capacity / conservation assertions (abort()
+                                with a "VERIF-ASSERT" message on failure)
+*/
+#ifndef KJN_LBZIP2_VERIF_H
+#define KJN_LBZIP2_VERIF_H
+#ifdef KJN_LBZIP2_VERIF
+
+#include <stdio.h>
+#include <stdlib.h>
+#include <string.h>
+#include <sched.h>
+#include <time.h>
+#include <pthread.h>
+
+extern int verif_perturb_on;
+extern unsigned long verif_perturb_seed;
+extern int verif_check_on;
+extern FILE *verif_trace_fp;
+extern char *verif_delay_script;
+extern pthread_mutex_t verif_misc_mutex;
+
+void verif_setup(void);
+void verif_perturb(void);
+void verif_delay(const char *site, unsigned long long a, unsigned long long b);
+void verif_fail(const char *what);
+
+#define VERIF_ASSERT(c) \
+  do { if (verif_check_on && !(c)) verif_fail(#c); } while (0)
+
+#endif /* KJN_LBZIP2_VERIF */
+#endif
